@@ -73,6 +73,7 @@ type World struct {
 	IO         IOState
 	ChunkMem   bool            // values are held in memory as chunks (neutral callback configuration of C17)
 	CmpOf      map[string]int  // comparator id per collection name (what the application supplies at load time)
+	collCalls  int             // SetCollection calls so far (every second one for bytes.Compare passes nil)
 	Digests    []string        // per step: "<len> <md5>" of the file (when RunCfg.Digests)
 	Roots      [][]byte        // root records written by the successful flushes so far
 	PreImage   []byte          // file image before the Flush in progress
@@ -260,6 +261,11 @@ func (w *World) do(op Op) string {
 	switch op.K {
 	case "coll":
 		// method values of one method on different receivers: distinct comparators that share a code pointer
+		w.collCalls++
+		if op.N == 0 && w.collCalls%2 == 0 {
+			s.SetCollection(op.Name, nil) // nil is documented to mean bytes.Compare, on new and on existing names
+			return "ok"
+		}
 		s.SetCollection(op.Name, cmpObj{op.N}.Compare)
 		return "ok"
 	case "rmcoll":
@@ -566,6 +572,23 @@ func (w *World) do(op Op) string {
 			err = nerr
 		}
 		return visObs(vs, true, false, err)
+	case "vrev":
+		// FlushRevert called from inside a visitor callback (on the mutating goroutine), which then stops the
+		// visit: must neither deadlock nor panic, and the store then shows the previous Flush
+		var vs []visited
+		var rerr error
+		called := false
+		err := c.VisitItemsAscendEx(op.Key, true, func(i *gkvlite.Item, d uint64) bool {
+			vs = append(vs, copyItem(i, d))
+			called = true
+			rerr = s.FlushRevert()
+			return false
+		})
+		o := visObs(vs, true, false, err)
+		if called {
+			o += " revert:" + errs(rerr)
+		}
+		return o
 	case "vall":
 		// a visit whose visitor calls every kind of read operation on the same store
 		var vs []visited
@@ -874,6 +897,22 @@ func (w *World) Expect(op Op) string {
 			}
 		}
 		return visObs(vs, op.WV, false, nil)
+	case "vrev":
+		if h.RO || w.File == nil {
+			return "?"
+		}
+		var one []visited
+		for _, it := range c.Items {
+			if cmp(op.Key, it.Key) <= 0 {
+				one = append(one, visited{Key: it.Key, Val: it.Val, Prio: it.Prio})
+				break
+			}
+		}
+		o := visObs(one, true, false, nil)
+		if len(one) > 0 {
+			o += " revert:" + w.Expect(Op{K: "revert", H: op.H})
+		}
+		return o
 	case "vmut", "vmutd":
 		if h.RO {
 			return "?"
@@ -961,6 +1000,7 @@ func dumpStore(s *gkvlite.Store) string {
 				fmt.Fprintf(&sb, " %s/%s/%d", hx(i.Key), hx(fullVal(i)), i.Priority)
 				return true
 			})
+			s.ItemDecRef(c, mi) // give back the reference MinItem handed out (counted when the store has callbacks)
 			if err != nil {
 				return "err:visit:" + err.Error()
 			}
@@ -980,10 +1020,29 @@ func (w *World) copyTo(op Op, h *Handle) string {
 		return "ok"
 	}
 	dst := NewMemFile()
+	if op.Prio > 0 {
+		// ONE transient fault on the destination: its Prio-th file call fails (a write stores WV?1:0 bytes);
+		// CopyTo must then return an error, or -- when the position is never reached -- a complete copy
+		torn := 0
+		if op.WV {
+			torn = 1
+		}
+		dst.Arm(int(op.Prio), torn, false)
+	}
 	res, err := h.Store.CopyTo(dst, op.N)
 	if err != nil {
+		if op.Prio > 0 && dst.Failed() > 0 {
+			return "ok" // the injected destination fault was reported
+		}
 		return "err:" + err.Error()
 	}
+	if op.Prio > 0 && dst.Failed() > 0 {
+		if res != nil {
+			res.Close()
+		}
+		return "copyto-swallowed-destination-fault: CopyTo returned no error although a destination file call failed"
+	}
+	dst.Arm(0, 0, false)
 	exp := h.Ref.dump()
 	if got := dumpStore(res); got != exp {
 		return "copy-differs: " + got
@@ -1001,8 +1060,10 @@ func (w *World) copyTo(op Op, h *Handle) string {
 			}
 			return "dst-reopen-err:" + err.Error()
 		}
-		if got := dumpStore(s2); got != exp {
-			return "dst-reopen-differs: " + got
+		got2 := dumpStore(s2)
+		s2.Close()
+		if got2 != exp {
+			return "dst-reopen-differs: " + got2
 		}
 		if d := DecodeModel(img); d != "timeout" && !(strings.HasPrefix(d, "ok ") && strings.SplitN(d, " ", 3)[2] == exp) && !(exp == "" && (d == "empty" || strings.HasPrefix(d, "ok "))) {
 			return "dst-decode-differs: " + trunc(d, 200)
